@@ -17,9 +17,9 @@ def cli_part(ck, tier):
         data = (b"The quick brown fox jumps over the lazy dog. " * 3000)[:120000]
         src = os.path.join(d, "in"); open(src, "wb").write(data)
 
-        def run(args, stdin_path):
+        def run(args, stdin_path, extra_env=None):
             r, w = os.pipe()
-            env = dict(os.environ, LD_PRELOAD=so, MCOUNT_FD=str(w), LC_ALL="C")
+            env = dict(os.environ, LD_PRELOAD=so, MCOUNT_FD=str(w), LC_ALL="C", **(extra_env or {}))
             with open(stdin_path, "rb") as f:
                 p = subprocess.run([xz] + args, stdin=f, stdout=subprocess.PIPE, stderr=subprocess.PIPE, env=env, pass_fds=(w,))
             os.close(w)
@@ -86,8 +86,16 @@ def cli_part(ck, tier):
             for frac, label in ((0.0, "1 byte"), (0.1, "need/10"), (0.5, "need/2"), (4.0, "4 need")):
                 cases.append(("l", 0, 1, max(int(listneed * frac), 1), False, label, listneed))
 
+        # a limit given as a percentage while the amount of RAM cannot be determined: whatever xz assumes, 5 % of it cannot be the
+        # 94 MiB that -6 needs unless it assumes more than 1.8 GiB of RAM it knows nothing about -- the run must fail or stay small
+        for pct, preset in ((5, 6), (10, 9)):
+            cases.append(("pct", preset, 1, 16 * MIB, True, "%d%% of unknown RAM" % pct, pct))
+
         def one(c):
             kind, p, t, lim, noadj, label, need = c
+            if kind == "pct":
+                rc, peak, out, err = run(["-%d" % p, "-T1", "--no-adjust", "--memlimit-compress=%d%%" % need, "-c"], src, {"MCOUNT_NO_PHYSMEM": "1"})
+                return c, rc, peak, out, err, out
             if kind in ("draw", "traw", "t", "l"):
                 a = {"draw": RAWOPT + ["-dc"], "traw": RAWOPT + ["-t"], "t": ["-t", "-T1"], "l": ["-l"]}[kind] + ["--memlimit-decompress=%d" % lim]
                 if kind == "l":
@@ -120,7 +128,7 @@ def cli_part(ck, tier):
                     ok = peak <= lim + allowance
                 if not ok:
                     ck.fail(f"c09:cli:limit-exceeded:{kind}", f"{what}: exit {rc} but peak heap {peak} bytes exceeds the limit by more than the allowance", json.dumps({"case": what}))
-                if kind == "c":
+                if kind in ("c", "pct"):
                     import lzma
                     try:
                         if lzma.decompress(out) != data:
